@@ -25,6 +25,13 @@ pub fn typed_rows(rng: &mut Rng) -> Vec<Vec<SqlValue>> {
         vec![Null, Null, Double(f64::INFINITY), Real(-0.0), Null, Null, Null, Null, Null, Null, Null, Null],
         vec![Smallint(0), Bigint(-1), Double(f64::MIN_POSITIVE), Real(1e-30), Numeric(0.0), Character("x    ".into()), Boolean(true), d("0001-01-01"), t("12:34:56"), ts("2038-01-19 03:14:07"), Varchar("line\nbreak; -- x".into()), Integer(-1)],
     ];
+    // fractional seconds: leading zeros, trailing zeros, full nanosecond precision
+    let fr = ["08:00:00.005", "12:34:56.000001", "00:00:00.012345678", "23:59:59.999999999", "10:20:30.5", "10:20:30.120"];
+    for k in 0..2 + rng.usize(3) {
+        let a = *rng.pick(&fr);
+        let b = *rng.pick(&fr);
+        rows.push(vec![Smallint(k as i16), Bigint(k as i64), Double(0.5), Real(0.25), Numeric(1.0), Character("frac ".into()), Boolean(true), d("2021-03-04"), t(a), ts(&format!("2021-03-04 {}", b)), Varchar(a.into()), Integer(k as i64)]);
+    }
     for _ in 0..rng.usize(4) {
         rows.push(vec![
             Smallint(rng.range(-5, 5) as i16),
@@ -90,7 +97,7 @@ pub fn make_db(seed: u64, with_typed: bool) -> (Database, Vec<String>) {
         if out.is_ok() {
             history.push(TYPED_DDL.to_string());
             for r in typed_rows(&mut rng) {
-                let _ = sut.db.insert_row("ty", Row::new(r));
+                let _ = sut.db.insert_row("TY", Row::new(r));
             }
             history.push("<typed rows through Database::insert_row>".into());
         }
